@@ -41,6 +41,7 @@ HIST_RULE = ("Random interleavings of all frame operations (derive/edit/observe)
              "from the implementation's own pre-state.")
 
 PROPS = {
+    "HIST": {"plans": ["HIST"], "codes": [1, 2, 10, 11, 12, 20, 30, 31, 40, 41], "rule": HIST_RULE},
     "C19": {"plans": ["C19"], "codes": [1, 2, 41, 20], "exhaustive_all": False,
             "rule": "C19 plan: every frame of 0..R rows x 23 boundary offsets (exhaustive stream), then random frames and offsets; each history is Shift(p) then Shift(-p)."},
 }
